@@ -37,16 +37,17 @@ func (fr *Frame) stdlibCall(in *ssa.Call, callee *ssa.Function, args []*GVal) *G
 		use(name + " returns some string; never panics")
 		return strRes()
 	case "strconv.Atoi":
-		use("strconv.Atoi: err==nil implies the result is an int (in range); its error is not a SyntaxError of this package")
-		r := ex.p.FreshConst("atoi", SInt)
-		ex.addFact(ex.typeFacts(r, types.Typ[types.Int]))
-		okc := ex.p.FreshConst("atoi_ok", SBool)
-		e := Ite(okc, mk("ErrNil", SErr), App("ErrOther", SErr, ex.p.FreshConst("errid", SInt)))
+		use("strconv.Atoi is a function of its argument: err==nil implies the result is an int (in range); otherwise the result is 0 and the error is not a SyntaxError of this package")
 		p := ex.p
 		p.DeclareFun("atoiVal", []*Sort{SStr}, SInt)
 		p.DeclareFun("atoiOK", []*Sort{SStr}, SBool)
+		p.DeclareFun("atoiErrId", []*Sort{SStr}, SInt)
 		s := fr.term(args[0])
-		ex.addFact(And(Eq(okc, App("atoiOK", SBool, s)), Implies(okc, Eq(r, App("atoiVal", SInt, s))), Implies(Not(okc), Eq(r, IntLit(0)))))
+		okc := App("atoiOK", SBool, s)
+		r := Ite(okc, App("atoiVal", SInt, s), IntLit(0))
+		ex.addFact(ex.typeFacts(App("atoiVal", SInt, s), types.Typ[types.Int]))
+		p.atoiAxiom = true
+		e := Ite(okc, mk("ErrNil", SErr), App("ErrOther", SErr, App("atoiErrId", SInt, s)))
 		return &GVal{Tuple: []*GVal{{T: r, Typ: types.Typ[types.Int]}, {T: e, Typ: errType()}}, Typ: in.Type()}
 	case "strings.Repeat":
 		use("strings.Repeat panics iff count < 0; len(result) == len(s)*count")
@@ -225,25 +226,28 @@ func (fr *Frame) stdlibCall2(in *ssa.Call, callee *ssa.Function, name string, ar
 		use("json.Unmarshal(data, &x): never panics; err == nil implies x == jsonDecode(data), a JSON value (specJSONVal) resp. a string; its error is not a SyntaxError of this package")
 		data := fr.term(args[0])
 		tgt := args[1]
-		okc := p.FreshConst("unmarshal_ok", SBool)
 		goFn("jsonOK", []*Sort{data.S}, SBool)
-		ex.addFact(Eq(okc, App("jsonOK", SBool, data)))
-		e := Ite(okc, mk("ErrNil", SErr), App("ErrOther", SErr, p.FreshConst("errid", SInt)))
+		goFn("jsonErrId", []*Sort{data.S}, SInt)
+		okc := App("jsonOK", SBool, data)
+		e := Ite(okc, mk("ErrNil", SErr), App("ErrOther", SErr, App("jsonErrId", SInt, data)))
 		if tgt.Ptr != nil && tgt.Ptr.Cell != nil && len(tgt.Ptr.Path) == 0 {
 			c := tgt.Ptr.Cell
 			switch c.sort {
 			case SStr:
 				goFn("jsonDecodeStr", []*Sort{data.S}, SStr)
+				goFn("jsonPartialStr", []*Sort{data.S}, SStr)
 				nv := App("jsonDecodeStr", SStr, data)
 				ex.addFact(ex.typeFacts(nv, types.Typ[types.String]))
-				ex.st.cells[c] = Ite(okc, nv, p.FreshConst("partial", SStr))
+				ex.st.cells[c] = Ite(okc, nv, App("jsonPartialStr", SStr, data))
 			case SVal:
 				goFn("jsonDecode", []*Sort{data.S}, SVal)
+				goFn("jsonPartial", []*Sort{data.S}, SVal)
 				nv := App("jsonDecode", SVal, data)
+				p.jsonAxiom = true
 				if _, ok := p.specs["specJSONVal"]; ok {
 					ex.addFact(Implies(okc, App("specJSONVal", SBool, nv)))
 				}
-				ex.st.cells[c] = Ite(okc, nv, p.FreshConst("partial", SVal))
+				ex.st.cells[c] = Ite(okc, nv, App("jsonPartial", SVal, data))
 			default:
 				ex.unsupp("json.Unmarshal into %s", c.sort.S)
 			}
